@@ -4,9 +4,9 @@ package main
 
 import (
 	"fmt"
-	"regexp"
 	"go/ast"
 	"go/types"
+	"regexp"
 	"sort"
 	"strings"
 )
@@ -158,8 +158,8 @@ type FuncVal struct {
 type Value struct {
 	T   types.Type
 	L   map[string]*Term
-	Loc *LValue  // static interior pointer (T is a pointer type)
-	Fn  *FuncVal // function literal / method value
+	Loc *LValue    // static interior pointer (T is a pointer type)
+	Fn  *FuncVal   // function literal / method value
 	Ty  types.Type // for interface values with statically known dynamic type (best effort)
 }
 
@@ -173,7 +173,7 @@ func (v Value) scalar() *Term {
 
 func (v Value) paths() []string {
 	var ps []string
-	for p := range v.L {
+	for _, p := range sortedKeys(v.L) {
 		ps = append(ps, p)
 	}
 	sort.Strings(ps)
@@ -199,10 +199,14 @@ func (v Value) field(prefix string, ft types.Type) Value {
 
 func (v Value) withField(prefix string, sub Value) Value {
 	out := Value{T: v.T, L: make(map[string]*Term, len(v.L))}
-	for p, t := range v.L {
+	for _, p := range sortedKeys(v.L) {
+		t := v.L[p]
+		_ = t
 		out.L[p] = t
 	}
-	for p, t := range sub.L {
+	for _, p := range sortedKeys(sub.L) {
+		t := sub.L[p]
+		_ = t
 		out.L[prefix+p] = t
 	}
 	return out
@@ -219,10 +223,14 @@ func (v Value) index(et types.Type, idx *Term) Value {
 
 func (v Value) withIndex(idx *Term, sub Value) Value {
 	out := Value{T: v.T, L: make(map[string]*Term, len(v.L))}
-	for p, t := range v.L {
+	for _, p := range sortedKeys(v.L) {
+		t := v.L[p]
+		_ = t
 		out.L[p] = t
 	}
-	for p, t := range sub.L {
+	for _, p := range sortedKeys(sub.L) {
+		t := sub.L[p]
+		_ = t
 		out.L["[]"+p] = mkStore(v.L["[]"+p], idx, t)
 	}
 	return out
